@@ -261,7 +261,8 @@ impl YieldPoint {
         Self {
             yield_controller: Arc::new(FiberYield::new()),
             operation_count: AtomicUsize::new(0),
-            yield_interval,
+            // an interval of 0 ("yield at every operation") would divide by zero below
+            yield_interval: yield_interval.max(1),
         }
     }
 
@@ -501,7 +502,7 @@ impl CooperativeUtils {
         for (i, item) in items.into_iter().enumerate() {
             results.push(processor(item)?);
 
-            if i % yield_interval == 0 {
+            if i % yield_interval.max(1) == 0 {
                 yield_point.yield_now().await;
             }
         }
@@ -537,7 +538,7 @@ impl CooperativeUtils {
             })
             // `buffered`, not `buffer_unordered`: the result vector is positional
             // (result i belongs to operation i), so completion order must not leak out
-            .buffered(max_concurrent)
+            .buffered(max_concurrent.max(1)) // a limit of 0 would never poll anything
             .collect::<Vec<_>>()
             .await;
 
